@@ -7,7 +7,15 @@ CONTRACTS = []      # (module, class name, props)
 for m in MODULES:
     mod = importlib.import_module(m)
     for C in mod.ALL:
-        CONTRACTS.append((m, C.__name__, list(C.props)))
+        props = set(C.props)
+        try:
+            # a contract serves every property one of its clauses is tagged with (generic clauses such as reentrancy,
+            # balance, "what is emitted is awaited" carry their own tags)
+            for cl in C().clauses():
+                props |= set(cl.props)
+        except Exception:
+            pass
+        CONTRACTS.append((m, C.__name__, sorted(props)))
 
 COMMON_TRUSTED = [
     'pyvc (self-written AST->z3 verification-condition generator) and its encoding of the Python subset (DESIGN 2.2)',
@@ -51,6 +59,6 @@ def _bounded(pid, script='df_enum.py', what='real accumulator vs pandas on the c
 
 for _pid in ('C06', 'C07', 'C11', 'C12'):
     EXTRA_CHECKS[_pid] = [_bounded(_pid)]
-for _pid in ('C13', 'C08', 'C17'):
+for _pid in ('C13', 'C08', 'C17', 'C10', 'C04'):
     EXTRA_CHECKS[_pid] = [_bounded(_pid, 'pure_enum.py', 'the real helper disagrees with its meaning on this concrete input')]
 EXTRA_CHECKS['C01'] = [_bounded('C01', 'pure_enum.py', 'the real helper disagrees with its list-level meaning on this concrete input')]
